@@ -167,6 +167,7 @@ def run_index(i, master, cfg):
     case = gen_case(seed, cfg, i)
     case["env"] = cfg.get("env", {})
     res = exec_case(case, cfg)
+    res["case_sha"] = hashlib.sha1(json.dumps({k: v for k, v in case.items() if k != "env"}, sort_keys=True).encode()).hexdigest()[:12]
     if res["verdict"] != "ok" or i < 3:
         res["case"] = case
     if i < 3:
